@@ -5,14 +5,13 @@ from __future__ import annotations
 from contextlib import suppress
 from typing import TYPE_CHECKING
 
+from ..language.ast import Node
 from ..language.source import Source, is_source
 from ..pyutils import inspect
 from .graphql_error import GraphQLError
 
 if TYPE_CHECKING:
     from collections.abc import Collection
-
-    from ..language.ast import Node
 
 __all__ = ["located_error"]
 
@@ -56,5 +55,11 @@ def located_error(
         positions = None
 
     with suppress_attribute_error:
-        nodes = original_error.nodes or nodes  # type: ignore
+        error_nodes = original_error.nodes  # type: ignore
+        # an arbitrary exception may carry an unrelated attribute of that name
+        if isinstance(error_nodes, Node) or (
+            isinstance(error_nodes, (list, tuple))
+            and all(isinstance(node, Node) for node in error_nodes)
+        ):
+            nodes = error_nodes or nodes
     return GraphQLError(message, nodes, source, positions, path, original_error)
